@@ -2,6 +2,10 @@
 //! Coq model runs on and prints results in the same canonical grammar.
 //!   <entry> <decimal arg>* <hex input | ->
 mod show;
+/// compile-time Send + Sync assertions generated from the crate's public types (C18)
+mod traits_gen {
+    include!(concat!(env!("VERIF_GEN_DIR"), "/assert_traits.rs"));
+}
 mod sx;
 #[path = "more.rs"]
 mod more;
@@ -46,6 +50,15 @@ unsafe impl GlobalAlloc for Counting {
 #[global_allocator]
 static A: Counting = Counting;
 
+static BASE: AtomicUsize = AtomicUsize::new(0);
+static PARSE_PEAK: AtomicUsize = AtomicUsize::new(usize::MAX);
+/// called right after the parser returned, before any formatting: the heap peak of the call itself
+pub fn parse_done() {
+    if PARSE_PEAK.load(Ordering::Relaxed) == usize::MAX {
+        PARSE_PEAK.store(PEAK.load(Ordering::Relaxed).saturating_sub(BASE.load(Ordering::Relaxed)), Ordering::Relaxed);
+    }
+}
+
 static CASE_NO: AtomicU64 = AtomicU64::new(0);
 static CASE_START_MS: AtomicU64 = AtomicU64::new(0);
 
@@ -69,9 +82,9 @@ fn unhex(s: &str) -> Vec<u8> {
 macro_rules! p {
     ($ctx:expr, $r:expr, $f:expr) => {{
         let r = $r;
-        if let Ok((_, v)) = &r {
-            let _ = format!("{:?}", v);
-        }
+        crate::parse_done();
+        // Debug formatting of whatever was returned, value or error (C01)
+        let _ = format!("{:?}", r);
         show::res($ctx, r, $f)
     }};
 }
@@ -174,10 +187,14 @@ fn main() {
             let input: Box<[u8]> = input.into_boxed_slice();
             let base = CUR.load(Ordering::Relaxed);
             PEAK.store(base, Ordering::Relaxed);
+            BASE.store(base, Ordering::Relaxed);
+            PARSE_PEAK.store(usize::MAX, Ordering::Relaxed);
             CASE_START_MS.store(now_ms(), Ordering::Relaxed);
             let r = std::panic::catch_unwind(|| run_entry(&name, &a, &input));
             CASE_START_MS.store(0, Ordering::Relaxed);
-            let peak = PEAK.load(Ordering::Relaxed).saturating_sub(base);
+            let total = PEAK.load(Ordering::Relaxed).saturating_sub(base);
+            let pp = PARSE_PEAK.load(Ordering::Relaxed);
+            let peak = if pp == usize::MAX { total } else { pp };
             if let Some(s) = stats.as_mut() {
                 let _ = writeln!(s, "{} {}", input.len(), peak);
             }
